@@ -10,9 +10,11 @@ ASSUME = [
     "units of one dimension are modelled as positive rationals (scale relative to a base unit); that CommonUnitT of two such "
     "units has the rational-gcd scale is property C07 and is re-checked here on every unit pair used (unit_ratio printed by the harness)",
     "integral reps: the 8 fixed-width types; same-width distinct types (long vs long long) are identified",
-    "literal statement is false on the code for %, <=> with different reps (PENDING finding F11) and for +/-/% whose exact "
-    "result is not representable / not defined in the result rep; the theorems carry these as explicit hypotheses "
-    "(C08_*_full + _counterexample + _partial)",
+    "+, -: the exact sum/difference must be representable in the result rep (raw-operator behaviour, outside the statement): "
+    "explicit hypothesis of C08_add_exact_partial / C08_sub_exact_partial, such cases are skipped (never executed) by the check; "
+    "%: non-zero divisor and not min % -1",
+    "% and <=> are proved and checked at full strength (scope = scalings fit the common rep) since the fix of F11/F17; "
+    "regression guards C08_F11_fixed_mod / C08_F11_fixed_spaceship",
     "floating-point reps: checked by correspondence only (tolerance 3 units of roundoff of the operands; order may collapse to a "
     "tie within 2 units of roundoff but never invert); no Lean theorem",
     "C++20 rewritten-candidate behaviour of ==/</<=> is observed through the compilers (g++ 12, clang++ 14), not modelled",
@@ -23,11 +25,7 @@ def main(tier, seed):
     t0 = time.time()
     wd = workdir(PROP)
     proof = prove(PROP)
-    cov, viol, pending = mixedops.explore(PROP, tier, seed, rng_for(PROP, seed), wd)
-    if pending:
-        keys = sorted({p["rec"]["op"] for p in pending})
-        print(f"PENDING-FINDING: property={PROP} F11: {mixedops.PENDING_FINDINGS[0]['what']} "
-              f"({len(pending)} matching case(s) this run, ops {keys}); e.g. {json.dumps(pending[0]['rec'], default=str)[:300]}")
+    cov, viol = mixedops.explore(PROP, tier, seed, rng_for(PROP, seed), wd)
     return finish(PROP, tier, seed, t0, proof, cov, viol, ASSUME)
 
 
